@@ -135,7 +135,6 @@ func (c *checker) c13Run(b *built, cases []c13Case) {
 		ops[i] = cs.op
 	}
 	ans := d.run(ops)
-	worst := map[string]uint64{}
 	for i, cs := range cases {
 		a := ans[i]
 		c.rep.Case(b.id()+"|"+cs.op, true)
@@ -171,8 +170,8 @@ func (c *checker) c13Run(b *built, cases []c13Case) {
 		}
 		if cs.match {
 			c.rep.Hist("allocation", "D3: pre-sized from the header count")
-			if alloc > worst["D3"] || crashed {
-				worst["D3"] = alloc
+			if alloc > worstD3 || crashed {
+				worstD3 = alloc
 				// keep the worst witness in the known-finding text
 				for k := range c.rep.Known {
 					if c.rep.Known[k].ID == "D3" {
@@ -189,6 +188,8 @@ func (c *checker) c13Run(b *built, cases []c13Case) {
 			Oracle: "decoding cost must be bounded by the input size: " + what})
 	}
 }
+
+var worstD3 uint64
 
 func log2(n int) int {
 	k := 0
@@ -217,6 +218,16 @@ func runC13gen(c *checker) {
 				cases = append(cases, cs)
 			}
 		}
+		if max := pick(60, 400); len(cases) > max {
+			r := c.r.Fork()
+			for i := len(cases) - 1; i > 0; i-- {
+				j := r.Intn(i + 1)
+				cases[i], cases[j] = cases[j], cases[i]
+			}
+			cases = cases[:max]
+		}
+		// the classic witness: struct with a list<i64> field declaring 2^27 elements, 9 bytes
+		cases = append(cases, c13Case{op: "memdecode struct:containers.PrimitiveContainers 0f00020a0800000000", shape: "field list<i64> matching", match: true, count: 1 << 27})
 		logf("repository packages: %d messages", len(cases))
 		c.c13Run(rb, cases)
 	}
